@@ -59,6 +59,7 @@ type Exec struct {
 	mapCells     map[*Cell]MapV
 	ghostCells   map[*Cell]*Cell
 	wireUnit     *ssa.Function
+	kernelMode   bool
 	wireDeps     map[string]bool
 	encLog       map[*Cell][]emission
 	ptrAliases   []ptrAlias
